@@ -25,7 +25,11 @@ CFG = {
         "written keys fit - c04_burst_every_linearisation), SetIfAbsent-only bursts (4-12 goroutines each doing SetIfAbsent(k, own value of "
         "own size) then Get/Peek(k) on 40-80 fresh keys behind a per-key spin barrier, capacity large enough that nothing evicts; checked "
         "against first-insert-wins: per key every recorded read and the value at quiescence are one and the same, every key present, Size = "
-        "sum of the winners' sizes, no eviction - c04_sia_every_linearisation, c04_first_insert_is_never_replaced), and an out-of-domain stream (negative sizes/capacities -> panic, sizes near 2^63 -> int64 wrap). "
+        "sum of the winners' sizes, no eviction - c04_sia_every_linearisation, c04_first_insert_is_never_replaced), kept results (in every sequential history the caller keeps, "
+        "uncopied, each non-empty removed list and the Keys()/Items() slices of every fourth step and re-reads them when the history is over; "
+        "2-8 goroutines issuing only SetAndGetRemoved of distinct fresh keys into a cache of capacity 1-6 keep their removed lists and "
+        "re-read them after all calls returned: every kept slice equals its copy taken at return time, every inserted value is reported "
+        "removed exactly once or still cached - c04_rem_every_linearisation), and an out-of-domain stream (negative sizes/capacities -> panic, sizes near 2^63 -> int64 wrap). "
         "Proof is the right level: the claim is equality with an ideal LRU on every history; tests reach a dozen scenarios."
     ),
     "level_note": (
@@ -34,9 +38,10 @@ CFG = {
         "linearisation that Coq re-checks); the lock-discipline lint for the concurrent clause (every exported method of both LRUCache types "
         "is one critical section, so a concurrent execution is one of the histories the theorems quantify over; Init and StatsJSON are not "
         "covered: Init is the constructor's unsynchronised initialiser, StatsJSON is a formatting wrapper around Stats). case_sound is proved "
-        "through the refinement theorems (not by defining accept as matches && holds), except for burst cases (CBurst, CSia): a burst has no single model "
+        "through the refinement theorems (not by defining accept as matches && holds), except for burst cases (CBurst, CSia, CRem): a burst has no single model "
         "run to compare with, so there case_accept = case_holds = the monitor; for CSia the monitor is the per-key reading of "
-        "c04_sia_every_linearisation (every linearisation is a first-insert-wins map that never replaces a present key); for CBurst it is "
+        "c04_sia_every_linearisation (every linearisation is a first-insert-wins map that never replaces a present key); for CRem it is the multiset reading of c04_rem_every_linearisation plus 'a kept list never changes' (the model is "
+        "value-semantic; Go slice aliasing is outside the model and is observed directly); for CBurst it is "
         "the quiescent-state monitor, which c04_burst_every_linearisation proves "
         "of the model's final state for every linearisation of the burst (single caches; the wide-facade variant of the monitor - per "
         "shard the present keys fit and a shard whose written keys fit has lost none - is evaluated but not restated as a theorem). Guard: sizes and capacities <= 2^62-1; beyond it the "
@@ -49,7 +54,7 @@ CFG = {
     "rule": (
         "one case = one generated history run on a fresh real cache. Sequential: non-trivial when at least one Get/Peek hit and at least one "
         "eviction occurred; wide: non-trivial when a Set made the number of present keys not grow while keys were present (a shard evicted); "
-        "concurrent: non-trivial when >= 2 goroutines ran and at least one eviction occurred; burst: non-trivial when >= 2 goroutines ran and at least one key is present at quiescence; SetIfAbsent-only burst: non-trivial when >= 2 goroutines ran. distinct = distinct Coq case terms"
+        "concurrent: non-trivial when >= 2 goroutines ran and at least one eviction occurred; burst: non-trivial when >= 2 goroutines ran and at least one key is present at quiescence; SetIfAbsent-only burst: non-trivial when >= 2 goroutines ran; concurrent SetAndGetRemoved: non-trivial when >= 2 goroutines ran and something was evicted. distinct = distinct Coq case terms"
     ),
     "trusted": [
         "Go harness c04: adapters over cache.LRUCache / tiny.LRUCache / the four wide constructors, recover wrappers, atomic tick stamping of concurrent calls",
